@@ -85,13 +85,24 @@ def case_rigid(kind, rot_idx, origin_idx):
     return CaseResult(fails=fails, states=states, transitions=states * 4, traces=states, outcome=f"{kind}:{states}")
 
 
-def case_rod(kind, n_elems, taper, bent, rot_idx, density, seed):
+def case_rod(kind, n_elems, taper, bent, rot_idx, density, seed, finalize=False):
     planar = bodies.rod_grid_is_planar(kind)
     rots = bodies.rotations_2d() if planar else bodies.rotations_3d()
     rot = rots[rot_idx % len(rots)]
     # the forcing grid is constructed on the STRAIGHT rod; the rod is bent / rotated / twisted afterwards
     rod = bodies.make_rod(n_elems, taper, bent, rot=rot, planar=planar, seed=seed, deform=False)
     grid = bodies.make_rod_grid(kind, rod, density=density)
+    if finalize:
+        # as every coupled simulation does: the rod is handed to a PyElastica simulator and finalised AFTER
+        # its forcing grid was built (finalize() moves the rod's arrays into block memory and re-binds them)
+        import elastica as ea
+
+        class _Env(ea.BaseSystemCollection, ea.Constraints, ea.Forcing, ea.Damping):
+            pass
+
+        env = _Env()
+        env.append(rod)
+        env.finalize()
     bodies.deform_rod(rod, bent, rot, planar, seed)
     d = grid.grid_dim
     n = grid.num_lag_nodes
@@ -208,6 +219,8 @@ def run(r) -> None:
                         rots = range(nrot) if (not quick or (n_elems == 3 and taper and bent and density == dens[0])) else (0, nrot - 1)
                         for ri in rots:
                             rods.append(dict(kind=kind, n_elems=n_elems, taper=taper, bent=bent, rot_idx=ri, density=density, seed=r.seed))
+                        if bent and density == dens[0]:
+                            rods.append(dict(kind=kind, n_elems=n_elems, taper=taper, bent=bent, rot_idx=nrot - 1, density=density, seed=r.seed, finalize=True))
     r.run_cases("rod-grids", "rod", rods, chunksize=8)
     r.bounds = {"rigid": bodies.RIGID, "rod_grids": bodies.ROD_GRIDS, "rotations_3d": "24 cube rotations + 3 generic", "rotations_2d": 7, "n_elems": [2, 3, 5],
                 "velocity_basis": "6 unit (V, Omega) + 1 generic (rigid); every node x component, every element x material-frame component + 1 generic (rods)", "delta": [1e-3, 5e-4]}
